@@ -446,8 +446,11 @@ def rule_r3(ctx) -> List[R.Inst]:
                 if not popped or hk is None:
                     insts.append(R.undec(rid, "ln-marker", file, pop.lineno, "hold construction not recognised"))
                 else:
-                    hit_arg = hk.get("hit", hk.get("#0"))
-                    if not (isinstance(hit_arg, ast.Name) and hit_arg.id == popped):
+                    # the head: the popped object itself, or its position (a record that keeps head / tail positions side by side)
+                    head_ok = any((isinstance(v_, ast.Name) and v_.id == popped) or
+                                  (isinstance(v_, ast.Attribute) and isinstance(v_.value, ast.Name) and v_.value.id == popped and v_.attr == "snap")
+                                  for v_ in hk.values())
+                    if not head_ok:
                         probs.append("the hold's head is not the popped object")
                     smp = hk.get("sample", hk.get("#1"))
                     if smp is not None and not (isinstance(smp, ast.Attribute) and isinstance(smp.value, ast.Name) and
@@ -954,6 +957,19 @@ def rule_r8(ctx) -> List[R.Inst]:
             acc[call_name(n.args[0])] = n.func.value.value.id
     if set(acc) != {"Hit", "Hold"}:
         return [R.undec(rid, "accumulators", file, loop.lineno, f"per-lane buffers not recognised: {acc}")]
+    # the record layouts the expectations below are written for (Hold carries its head object and the tail position)
+    nts = {}
+    for n in walk_no_nested(fn.node):
+        if isinstance(n, ast.Assign) and isinstance(n.targets[0], ast.Name) and isinstance(n.value, ast.Call) and call_name(n.value) == "namedtuple" and \
+                len(n.value.args) == 2:
+            try:
+                nts[n.targets[0].id] = list(ast.literal_eval(n.value.args[1])) if not isinstance(ast.literal_eval(n.value.args[1]), str) else \
+                    ast.literal_eval(n.value.args[1]).replace(",", " ").split()
+            except Exception:
+                pass
+    if nts.get("Hold") is not None and nts.get("Hold") != ["hit", "sample", "snap"]:
+        return [R.undec(rid, "records", file, loop.lineno,
+                        f"the Hold record has the fields {nts.get('Hold')}: which of them is the head / tail position is not followed")]
     F = Flow()
     results = {}
     after = fn.node.body[fn.node.body.index(loop) + 1:]     # the buffers stay symbolic: only the code after the loop
